@@ -18,6 +18,14 @@
       value of a known key is a type error — a TOML boolean is not an integer, fix 0abb989) and
       its end-to-end form `C20_invalid_type_end_to_end` (the outcome of `parse_arguments` is the
       re-raised error, or with `exit_on_error` the `fatal:` line + exit 1 of fix f47ae20);
+    * values outside the allowed choices are rejected, not coerced: `convert_literal`,
+      `C20_value_literal_and_in_choices` (whatever argparse's value pipeline stores IS the text
+      given and one of the choices), `C20_near_miss_string_diagnosed` (for EVERY string that is not
+      literally a choice — other case, padding, prefixes, member names … — `stdout = "…"` /
+      `warning-level = "…"` ends in the TOML diagnostic) and `C20_out_of_choice_int_diagnosed`
+      (follow-imports); Tie A `tieA_value_probes` (argparse's live `_get_values` on every allowed
+      value and every near-miss text = `getValues`) and `tieA_no_conversion_hooks` (no Enum
+      `_missing_` override / replaced `__new__` / shadowed builtin among the `type=` callables);
     * counterexamples (`C20_cex_*`, by kernel evaluation of the model on the regenerated tables) for
       the defect classes of the pinned tree, and `C20_full_false`.
     * the command line in EVERY spelling argparse accepts (`RattrModel/Argv.lean`: `parseArgumentsX`,
@@ -843,8 +851,8 @@ theorem findPyproject_no_root (w : World) (h : w.cwd.isRoot = false)
 
 /-! ### Counterexamples on the pinned tree (kernel evaluation of the model on the regenerated tables) -/
 
-private def w0 : World := { overrideFile := none, cwd := { vcs := true, pyproject := none }, parents := [] }
-private def argv0 : List Text := [.word (str "t.py")]
+def w0 : World := { overrideFile := none, cwd := { vcs := true, pyproject := none }, parents := [] }
+def argv0 : List Text := [.word (str "t.py")]
 
 /-- `exclude = ["-x"]`: an acceptable value, rejected because argparse re-reads `-x` as an option. -/
 theorem C20_cex_dash_value :
@@ -892,7 +900,8 @@ def AllAcceptable (conf : Toml) : Prop :=
 
 /-- C20 in full, for an explicit TOML table and a command line that parses on its own:
 (a) an unacceptable value of a known key is diagnosed (for wrong TYPES this now holds:
-    `C20_invalid_type_end_to_end`; out-of-choice values are diagnosed by argparse — Tie B);
+    `C20_invalid_type_end_to_end`; out-of-choice values of a one-key table:
+    `C20_near_miss_string_diagnosed`, `C20_out_of_choice_int_diagnosed`; multi-key tables — Tie B);
 (b) a table of acceptable values (without `strict` and `threshold` together) is accepted, and then
     every common option holds `Spec.effective` (that last part is `C20_precedence`). -/
 def C20_full : Prop :=
@@ -923,6 +932,276 @@ theorem C20_full_false : ¬ C20_full := by
   obtain ⟨ns, hns⟩ := h2
   rw [C20_cex_dash_value.2] at hns
   cases hns
+
+
+/-! ### Choice-restricted options: a value is taken literally or rejected — never coerced -/
+
+/-- `_get_value`: the `type=` callables of the table are literal — what `convert` accepts IS the text
+given (up to the trusted int codec): no case folding, no stripping, no lookup by member name. -/
+theorem convert_literal (ty : VType) (t : Text) (v : Val) (h : convert ty t = some v) :
+    v = .text t ∨ ∃ i, t = .num i ∧ v = .int i := by
+  cases ty <;> cases t <;> simp [convert] at h <;> first
+    | exact Or.inl h.symm
+    | exact Or.inr ⟨_, rfl, h.symm⟩
+    | exact Or.inl h.2.symm
+
+theorem convert_enum_domain (dom : List Str) (t : Text) (v : Val) (h : convert (.enum dom) t = some v) :
+    ∃ s, t = .word s ∧ s ∈ dom ∧ v = .text (.word s) := by
+  cases t with
+  | num i => simp [convert] at h
+  | word s =>
+    simp [convert] at h
+    exact ⟨s, rfl, h.1, h.2.symm⟩
+
+theorem C20_value_literal_and_in_choices (o : Opt) (t : Text) (v : Val)
+    (h : getValues o (some t) = .ok v) :
+    (v = .text t ∨ ∃ i, t = .num i ∧ v = .int i) ∧ (∀ cs, o.choices = some cs → v ∈ cs) := by
+  unfold getValues at h
+  cases hc : convert o.vtype t with
+  | none => simp [hc] at h
+  | some v' =>
+    simp only [hc] at h
+    cases hch : o.choices with
+    | none =>
+      simp only [hch] at h
+      injection h with h; subst h
+      exact ⟨convert_literal _ _ _ hc, by intro cs h; cases h⟩
+    | some cs =>
+      simp only [hch] at h
+      split at h
+      · injection h with h; subst h
+        refine ⟨convert_literal _ _ _ hc, ?_⟩
+        intro cs' h'; injection h' with h'; subst h'; assumption
+      · cases h
+
+theorem C20_not_a_choice_rejected (o : Opt) (t : Text) (cs : List Val) (hc : o.choices = some cs)
+    (h1 : Val.text t ∉ cs) (h2 : ∀ i, t = .num i → Val.int i ∉ cs) :
+    getValues o (some t) = .error (.invalidValue o.dest) ∨
+    getValues o (some t) = .error (.invalidChoice o.dest) := by
+  cases hg : getValues o (some t) with
+  | ok v =>
+    exfalso
+    obtain ⟨hl, hin⟩ := C20_value_literal_and_in_choices o t v hg
+    have := hin cs hc
+    rcases hl with rfl | ⟨i, rfl, rfl⟩
+    · exact h1 this
+    · exact h2 i rfl this
+  | error e =>
+    unfold getValues at hg
+    cases hcv : convert o.vtype t with
+    | none => simp [hcv] at hg; left; rw [hg]
+    | some v' =>
+      simp only [hcv, hc] at hg
+      split at hg
+      · cases hg
+      · injection hg with hg; right; rw [hg]
+
+theorem run_store_rejects (p : Parser) (f : Str) (o : Opt) (t : Text) (rest : List Tok) (st : St)
+    (hf : findFlag p f = some o) (ha : o.action = .store) (e : ArgErr)
+    (hg : getValues o (some t) = .error e) :
+    run p (.flag f :: .val t :: rest) st = .error e := by
+  simp [run, hf, ha, takeAction, hg]
+
+theorem run_store_needs_value (p : Parser) (f g : Str) (o : Opt) (rest : List Tok) (st : St)
+    (hf : findFlag p f = some o) (ha : o.action = .store) :
+    run p (.flag f :: .flag g :: rest) st = .error (.expectedOneArgument o.dest) := by
+  simp [run, hf, ha]
+
+
+theorem lex_val {t t' : Text} (h : lex t = .val t') : t' = t := by
+  unfold lex at h
+  split at h
+  · cases h
+  · injection h with h; exact h.symm
+
+theorem validate_single (tm : Dict Str TomlType) (k : Str) (v : TVal) (ty : TomlType)
+    (hk : Dict.get? tm k = some ty) (hv : ty.isValid v = true) :
+    validateToml tm [(k, v)] = .ok [(k, v)] := by
+  have hp : prune tm [(k, v)] = [(k, v)] := by simp [prune, contains_eq, hk]
+  unfold validateToml
+  rw [hp]
+  cases ty <;> simp_all [checkTypes, TomlType.isValid]
+
+/-- The engine of the two theorems below: an explicit one-key table whose value passes the type
+table and translates to `--key VALUE`, where argparse's value pipeline rejects VALUE (or VALUE is
+itself re-read as an option), ends in the TOML diagnostic — never `ok`, never coerced. -/
+theorem toml_single_rejected (w : World) (k : Str) (v : TVal) (name : Str) (o : Opt) (tk : Tok)
+    (argv : List Text) (eoe : Bool) (ns0 : Namespace)
+    (hcli : parse cliParser (argv.map lex) [] = .ok ns0)
+    (hval : validateToml tomlTypeMap [(k, v)] = .ok [(k, v)])
+    (htr : (translate tomlNameMap [(k, v)]).map lex = [.flag name, tk])
+    (hf : findFlag tomlParser name = some o) (ha : o.action = .store)
+    (hrej : ∀ t, tk = .val t → ∃ e, getValues o (some t) = .error e) :
+    ∃ e, parseArguments w (some [(k, v)]) argv eoe = tomlErr eoe (.arg e) := by
+  unfold parseArguments
+  simp only [hcli, hval, htr]
+  cases tk with
+  | val t =>
+    obtain ⟨e, he⟩ := hrej t rfl
+    refine ⟨e, ?_⟩
+    simp only [parse, run_store_rejects tomlParser name o t [] _ hf ha e he]
+  | flag g =>
+    refine ⟨.expectedOneArgument o.dest, ?_⟩
+    simp only [parse, run_store_needs_value tomlParser name g o [] _ hf ha]
+
+/-- A word `lex` (= `_parse_optional`) reads as an option: `-` and at least one more character. -/
+def dashWord : Str → Bool
+  | '-' :: _ :: _ => true
+  | _ => false
+
+/-- What the table must say about a string-typed, choice-restricted key for the theorem below
+(decided over the regenerated tables by `C20_choice_keys_table`). -/
+def choiceKeyOk (k : Str) : Bool :=
+  Dict.get? tomlTypeMap k == some .string &&
+  dashWord (argName tomlNameMap k) &&
+  (match findFlag tomlParser (argName tomlNameMap k) with
+   | some o => o.action == .store && o.vtype != .int && o.choices.isSome
+   | none => false)
+
+/-- The string-typed TOML keys whose option has `choices` (today: warning-level, stdout). -/
+def choiceKeys : List Str :=
+  tomlTypeMap.filterMap fun (k, ty) => if ty == .string && (choicesOfKey k).isSome then some k else none
+
+/-- The int-typed TOML keys whose option has `choices` (today: follow-imports). -/
+def intChoiceKeys : List Str :=
+  tomlTypeMap.filterMap fun (k, ty) => if ty == .int && (choicesOfKey k).isSome then some k else none
+
+def intChoiceKeyOk (k : Str) : Bool :=
+  Dict.get? tomlTypeMap k == some .int &&
+  dashWord (argName tomlNameMap k) &&
+  (match findFlag tomlParser (argName tomlNameMap k) with
+   | some o => o.action == .store && o.vtype == .int && o.choices.isSome
+   | none => false)
+
+theorem C20_choice_keys_table :
+    choiceKeys.all choiceKeyOk = true ∧ intChoiceKeys.all intChoiceKeyOk = true ∧
+    choiceKeys ≠ [] ∧ intChoiceKeys ≠ [] := by
+  decide +kernel
+
+theorem lex_dashWord (name : Str) (h : dashWord name = true) : lex (.word name) = .flag name := by
+  unfold dashWord at h
+  split at h
+  · rfl
+  · cases h
+
+/-- **C20 (a string outside the allowed choices is rejected, not coerced)** — for EVERY string `t`:
+an explicit table `key = "t"` for a string-typed choice-restricted key (stdout, warning-level) whose
+`t` is not literally one of the choices ends in the TOML diagnostic: other letter case, padding,
+prefixes, member names … are all just "not a choice" to the model.  (Tie A `tieA_value_probes` /
+`tieA_no_conversion_hooks` pin that the live `type=` callables behave like this; Tie B runs the
+near misses.) -/
+theorem C20_near_miss_string_diagnosed (w : World) (k : Str) (hk : k ∈ choiceKeys) (t : Text)
+    (cs : List Val) (hcs : choicesOfKey k = some cs) (hn : Val.text t ∉ cs)
+    (argv : List Text) (eoe : Bool) (ns0 : Namespace)
+    (hcli : parse cliParser (argv.map lex) [] = .ok ns0) :
+    ∃ e, parseArguments w (some [(k, .sc (.str t))]) argv eoe = tomlErr eoe (.arg e) := by
+  have hok : choiceKeyOk k = true := List.all_eq_true.mp C20_choice_keys_table.1 k hk
+  unfold choiceKeyOk at hok
+  simp only [Bool.and_eq_true, beq_iff_eq] at hok
+  obtain ⟨⟨hty, hname⟩, hopt⟩ := hok
+  unfold choicesOfKey at hcs
+  cases hf : findFlag tomlParser (argName tomlNameMap k) with
+  | none => simp [hf] at hopt
+  | some o =>
+    simp only [hf] at hopt hcs
+    simp only [Bool.and_eq_true, beq_iff_eq, bne_iff_ne, ne_eq] at hopt
+    obtain ⟨⟨ha, hnotint⟩, _⟩ := hopt
+    refine toml_single_rejected w k (.sc (.str t)) (argName tomlNameMap k) o (lex t) argv eoe ns0 hcli
+      (validate_single _ _ _ .string hty rfl) ?_ hf ha ?_
+    · simp [translate, translate1, lex_dashWord _ hname]
+    · intro t' ht'
+      have := lex_val ht'; subst this
+      cases hg : getValues o (some t') with
+      | error e => exact ⟨e, rfl⟩
+      | ok v =>
+        exfalso
+        obtain ⟨hl, hin⟩ := C20_value_literal_and_in_choices o t' v hg
+        have hv := hin cs hcs
+        rcases hl with rfl | ⟨i, rfl, rfl⟩
+        · exact hn hv
+        · -- an int came out: only the `int` callable does that
+          unfold getValues at hg
+          cases hty' : o.vtype <;> simp_all [convert]
+
+/-- The same for the int-typed choice-restricted key (follow-imports): every integer that is not one
+of the choices is rejected (`invalid choice`). -/
+theorem C20_out_of_choice_int_diagnosed (w : World) (k : Str) (hk : k ∈ intChoiceKeys) (i : Int)
+    (cs : List Val) (hcs : choicesOfKey k = some cs) (hn : Val.int i ∉ cs)
+    (argv : List Text) (eoe : Bool) (ns0 : Namespace)
+    (hcli : parse cliParser (argv.map lex) [] = .ok ns0) :
+    ∃ e, parseArguments w (some [(k, .sc (.int i))]) argv eoe = tomlErr eoe (.arg e) := by
+  have hok : intChoiceKeyOk k = true := List.all_eq_true.mp C20_choice_keys_table.2.1 k hk
+  unfold intChoiceKeyOk at hok
+  simp only [Bool.and_eq_true, beq_iff_eq] at hok
+  obtain ⟨⟨hty, hname⟩, hopt⟩ := hok
+  unfold choicesOfKey at hcs
+  cases hf : findFlag tomlParser (argName tomlNameMap k) with
+  | none => simp [hf] at hopt
+  | some o =>
+    simp only [hf] at hopt hcs
+    simp only [Bool.and_eq_true, beq_iff_eq] at hopt
+    obtain ⟨⟨ha, hint⟩, _⟩ := hopt
+    refine toml_single_rejected w k (.sc (.int i)) (argName tomlNameMap k) o (.val (.num i)) argv eoe ns0 hcli
+      (validate_single _ _ _ .int hty rfl) ?_ hf ha ?_
+    · have h2 : lex (.num i) = .val (.num i) := rfl
+      simp [translate, translate1, lex_dashWord _ hname, h2]
+    · intro t' ht'
+      injection ht' with ht'; subst ht'
+      exact ⟨.invalidChoice o.dest, by simp [getValues, hint, convert, hcs, hn]⟩
+
+/-- Non-vacuity: `stdout = "IR"`, `stdout = " ir"`, `warning-level = "ALL"`, `follow-imports = 4`
+meet the hypotheses (the keys are in the tables, the values are not choices). -/
+example : str "stdout" ∈ choiceKeys ∧ str "warning-level" ∈ choiceKeys ∧ str "follow-imports" ∈ intChoiceKeys ∧
+    (∃ cs, choicesOfKey (str "stdout") = some cs ∧ Val.text (.word (str "IR")) ∉ cs ∧
+      Val.text (.word (str " ir")) ∉ cs ∧ Val.text (.word (str "ir")) ∈ cs) ∧
+    (∃ cs, choicesOfKey (str "warning-level") = some cs ∧ Val.text (.word (str "ALL")) ∉ cs) ∧
+    (∃ cs, choicesOfKey (str "follow-imports") = some cs ∧ Val.int 4 ∉ cs) := by
+  decide +kernel
+
+/-- Kernel-evaluated instances on the regenerated tables (TESTS of the model): the seeded
+`Output._missing_` class of change (case-insensitive lookup) would have to flip these. -/
+theorem C20_witness_near_miss :
+    parseArguments w0 (some [(str "stdout", .sc (.str (.word (str "IR"))))]) argv0 false
+      = .tomlError (.arg (.invalidValue (str "stdout"))) ∧
+    parseArguments w0 (some [(str "stdout", .sc (.str (.word (str "Results"))))]) argv0 true
+      = .tomlFatal (.arg (.invalidValue (str "stdout"))) ∧
+    parseArguments w0 (some [(str "warning-level", .sc (.str (.word (str "ALL"))))]) argv0 false
+      = .tomlError (.arg (.invalidChoice (str "_warning_level"))) ∧
+    parseArguments w0 (some [(str "follow-imports", .sc (.int 4))]) argv0 false
+      = .tomlError (.arg (.invalidChoice (str "_follow_imports_level"))) ∧
+    parseArguments w0 (some [(str "stdout", .sc (.str (.word (str "ir"))))]) [.word (str "-o"), .word (str "IR"), .word (str "t.py")] false
+      = .cliError (.invalidValue (str "stdout")) := by
+  decide +kernel
+
+/-! #### Tie A for the value pipeline -/
+
+def probeText : Generated.C20.RawVal → Option Text
+  | .int i => some (.num i)
+  | .str s => some (.word (str s))
+  | _ => none
+
+/-- argparse's own value pipeline, evaluated live on every allowed value and every near-miss text
+of every choice-restricted option of both parsers, agrees with `getValues`: same verdict, same
+converted value. -/
+theorem tieA_value_probes :
+    Generated.C20.valueProbes.all (fun (ps, dest, probe, verdict, value) =>
+      match (if ps = "cli" then cliParser else tomlParser).find? (fun o => o.dest == str dest), probeText probe with
+      | some o, some t =>
+        match getValues o (some t) with
+        | .ok v => verdict == "ok" && v == valOfRaw value
+        | .error (.invalidValue _) => verdict == "invalidValue"
+        | .error (.invalidChoice _) => verdict == "invalidChoice"
+        | .error _ => false
+      | _, _ => false) = true ∧ Generated.C20.valueProbes ≠ [] := by
+  decide +kernel
+
+/-- No `type=` callable of either parser has a lenient-lookup hook (an Enum `_missing_` override, a
+replaced `__new__` / metaclass `__call__`, members named differently from their values, a callable
+that merely shares the name of int / str / Path): `convert` models plain conversion only. -/
+theorem tieA_no_conversion_hooks :
+    Generated.C20.conversionHooks.all (fun (_, _, hooks) => hooks.isEmpty) = true ∧
+    Generated.C20.conversionHooks.length = cliParser.length + tomlParser.length := by
+  decide +kernel
 
 
 /-! ### Every spelling of the command line (argparse's tokeniser, `RattrModel/Argv.lean`) -/
